@@ -91,7 +91,11 @@ def main(pid, rep=None, finish=True):
                 bad = []
                 if len(o["wire"]) > 1:
                     bad.append("OneResponse")
-                if o["torn"]:
+                # torn = an exception escaped a callback while only PART of a response is on the wire; a log call that fails after
+                # the whole response has been written and the connection closed has torn nothing
+                whole = len(o["wire"]) == 1 and o["tp"] != "open" and \
+                    (o["wire"][0][1] or not (20 <= o["wire"][0][0] <= 29) or cfg["h"]["out"] == "ok20empty")
+                if o["torn"] and not whole:
                     bad.append("NeverTorn")
                 for (st, body, meta_ok) in o["wire"]:
                     if not meta_ok or not (10 <= st <= 69) or (body and not 20 <= st <= 29):
